@@ -76,3 +76,65 @@ def build(m: Dict[str, Any], note_as_object: bool = False, **db_kwargs):
         db.add(Reference(dec(r['type']), c1, c2, name=_opt(r['name']), comment=_opt(r['comment']),
                          on_update=_opt(r['onupdate']), on_delete=_opt(r['ondelete']), inline=r['inline']))
     return db
+
+
+def build_morphed(m: Dict[str, Any], aspects=('names', 'types', 'settings'), **db_kwargs):
+    """The same final content reached the long way round: a database is built from a DIFFERENT content (other table and
+    column names, types, flags, defaults, notes, actions), rendered to SQL and DBML (whatever a renderer or a model object
+    may remember is remembered now), and then edited in place, attribute by attribute, into the content of m.
+    aspects: which part of the content starts out different (a memory keyed on the rest is then not invalidated by accident)."""
+    import copy
+    from pydbml.classes import Note
+    old = copy.deepcopy(m)
+    names, types, settings = ('names' in aspects), ('types' in aspects), ('settings' in aspects)
+    for t in old['tables']:
+        if names:
+            t['name'] = t['name'] + '_old'
+        if settings and t['note']:
+            t['note'] = 'old note'
+        for c in t['cols']:
+            if names:
+                c['name'] = c['name'] + '_old'
+            if types and c['type']['k'] == 'str':
+                c['type'] = {'k': 'str', 'v': 'zz_old_type'}
+            if settings:
+                c['unique'], c['notnull'] = not c['unique'], not c['notnull']
+                if c['default']['k'] != 'none':
+                    c['default'] = {'k': 'str', 'v': 'zz_old'}
+                if c['note']:
+                    c['note'] = 'old note'
+    for e in old['enums']:
+        if names:
+            e['name'] = e['name'] + '_old'
+    for r in old['refs']:
+        if settings:
+            r['onupdate'], r['ondelete'] = r['ondelete'], r['onupdate']
+            if r['name']:
+                r['name'] = r['name'] + '_old'
+    db = build(old, **db_kwargs)
+    for kind in ('sql', 'dbml'):
+        try:
+            getattr(db, kind)
+            for t in db.tables:
+                getattr(t, kind)
+            for r in db.refs:
+                getattr(r, kind)
+        except Exception:
+            pass
+    for T, t in zip(db.tables, m['tables']):
+        T.name = dec(t['name'])
+        if t['note']:
+            T.note = Note(dec(t['note']))
+        for C, c in zip(T.columns, t['cols']):
+            C.name = dec(c['name'])
+            if c['type']['k'] == 'str':
+                C.type = dec(c['type']['v'])
+            C.unique, C.not_null = c['unique'], c['notnull']
+            C.default = _default(c['default'])
+            if c['note']:
+                C.note = Note(dec(c['note']))
+    for E, e in zip(db.enums, m['enums']):
+        E.name = dec(e['name'])
+    for R, r in zip(db.refs, m['refs']):
+        R.on_update, R.on_delete, R.name = _opt(r['onupdate']), _opt(r['ondelete']), _opt(r['name'])
+    return db
